@@ -270,6 +270,15 @@ def strip_keep_deref(e):
     return e
 
 
+def strip_borrow_mut(e):
+    """the borrowed place if `e` is `&mut <place>` (through coercions), else None"""
+    while e.get("k") in ("Coerce",) or (e.get("k") == "Block" and not e.get("stmts") and "expr" in e):
+        e = e["arg"] if "arg" in e else e["expr"]
+    if e.get("k") == "Borrow" and e.get("mut"):
+        return e["arg"]
+    return None
+
+
 class Folder:
     def __init__(self, facts, env=None, lets=None, on_call=None, effects=False, local_calls=2):
         self.local_calls = local_calls  # fold calls to crate-local functions by folding their bodies (depth bound)
@@ -442,7 +451,11 @@ class Folder:
             fl = for_loop_parts(e)
             if not fl or not self.effects:
                 raise Undecidable("loop")
-            items = self._iterable(self.fold(fl[0]))
+            src = _loaded(self.fold(fl[0]))
+            items = self._iterable(src)
+            if isinstance(src, list) and strip_borrow_mut(fl[0]) is not None:
+                # `for x in &mut v`: the loop variable is a reference into v
+                items = [x if isinstance(x, (Ref, dict, list)) else Ref(src, i) for i, x in enumerate(src)]
             if items is None or len(items) > self.max_iter:
                 raise Undecidable("loop over a non-constant or too long sequence")
             for item in items:
@@ -910,6 +923,11 @@ class Folder:
                     return NotImplemented
                 return None
             return NotImplemented
+        if last == "into_iter" and len(a) == 1 and strip_borrow_mut(a[0]) is not None and self.effects:
+            # `for x in &mut v`: the items are references into v
+            v = _loaded(self.fold(a[0]))
+            if isinstance(v, list):
+                return [x if isinstance(x, (Ref, dict, list)) else Ref(v, i) for i, x in enumerate(v)]
         if last in ("iter", "into_iter", "copied", "cloned", "as_slice", "as_ref", "deref", "by_ref", "deref_mut", "as_mut_slice") and len(a) == 1:
             v = self.fold(a[0])
             if isinstance(v, list) or (self._iterable(v) is not None and last in ("into_iter", "by_ref")):
@@ -958,8 +976,8 @@ class Folder:
             return NotImplemented
         if cc.endswith("vec::from_elem") and len(a) == 2:
             x, n = self.fold(a[0]), self.fold(a[1])
-            if isinstance(n, int) and not isinstance(n, bool) and 0 <= n <= 200000 and not isinstance(x, (list, dict)):
-                return [x] * n
+            if isinstance(n, int) and not isinstance(n, bool) and 0 <= n <= 200000 and not isinstance(x, list):
+                return [dict(x) for _ in range(n)] if isinstance(x, dict) else [x] * n
             return NotImplemented
         if cc in ("alloc::vec::Vec::new", "alloc::vec::Vec::with_capacity"):
             return []
